@@ -48,6 +48,9 @@ type srelayWorld struct {
 	reqSeen  map[int]map[relayPair]bool // per relay node: authenticated requests (X asked for Y)
 	respSeen map[int]map[relayPair]bool // per relay node: authenticated responses (Y answered for X)
 	recs     map[*HostInfo]map[uint32]Relay
+	// idxNamed: per tunnel, every relay index its peer has named as its own in an authenticated control message
+	// over that tunnel (the initiator index of a request, the responder index of a response)
+	idxNamed map[*HostInfo]map[uint32]bool
 	chasing  bool // a byzantine-chase event is queued
 }
 
@@ -167,7 +170,7 @@ func runSRelay(rc *sk.RunCtx, focus string) {
 		return
 	}
 	defer mw.stopAll()
-	w := &srelayWorld{meshWorld: mw, focus: focus, relays: map[int]bool{0: true}, stats: map[string]int{}, reqSeen: map[int]map[relayPair]bool{}, respSeen: map[int]map[relayPair]bool{}, recs: map[*HostInfo]map[uint32]Relay{}}
+	w := &srelayWorld{meshWorld: mw, focus: focus, relays: map[int]bool{0: true}, stats: map[string]int{}, reqSeen: map[int]map[relayPair]bool{}, respSeen: map[int]map[relayPair]bool{}, recs: map[*HostInfo]map[uint32]Relay{}, idxNamed: map[*HostInfo]map[uint32]bool{}}
 	n := len(mw.nodes)
 	if second {
 		w.relays[n-1] = true
@@ -575,6 +578,15 @@ func (w *srelayWorld) recordControl(to *simNode, d *simDatagram) {
 	if err := msg.Unmarshal(out); err != nil {
 		return
 	}
+	if w.idxNamed[hi] == nil {
+		w.idxNamed[hi] = map[uint32]bool{}
+	}
+	switch msg.Type {
+	case NebulaControl_CreateRelayRequest:
+		w.idxNamed[hi][msg.InitiatorRelayIndex] = true
+	case NebulaControl_CreateRelayResponse:
+		w.idxNamed[hi][msg.ResponderRelayIndex] = true
+	}
 	var from, target netip.Addr
 	if msg.OldRelayFromAddr > 0 || msg.OldRelayToAddr > 0 {
 		var b [4]byte
@@ -742,6 +754,19 @@ func (w *srelayWorld) checkRelayRecords(nd *simNode, ev string) bool {
 				}
 				if !asked {
 					w.fail("C39", "relay-record-not-requested", "node %d after %s: forwarding relay record %d joins tunnel %v with %v, but neither of them sent this node a CreateRelayRequest for the other", nd.idx, ev, idx, h.vpnAddrs, r.PeerAddr)
+					return false
+				}
+			}
+		}
+		for _, idx := range sortedU32(cur) {
+			r := cur[idx]
+			if r.Type == ForwardingType && r.State == Established {
+				// the onward leg is established only with an index its far end chose: the index this node will put
+				// on forwarded packets is one the tunnel's peer named itself (in its request or in its answer), never
+				// a default or somebody else's
+				w.stats["probe.established_leg_index_checked"]++
+				if !w.idxNamed[h][r.RemoteIndex] {
+					w.fail("C39", "relay-leg-established-without-peer-index", "node %d after %s: forwarding relay record %d (tunnel %v <-> %v) is Established with remote index %d, which the tunnel's peer never named in a CreateRelayRequest/Response on this tunnel", nd.idx, ev, idx, h.vpnAddrs, r.PeerAddr, r.RemoteIndex)
 					return false
 				}
 			}
